@@ -77,6 +77,8 @@ def gen(rng):
     sc = {"property": ID, "url": url, "via": rng.choice(["direct", "direct", "direct", "proxy"])}
     if sc["via"] == "proxy" and rng.random() < 0.3:
         sc["proxy_port"] = "default"  # the proxy's own URL carries no port
+    if s == "http" and rng.random() < 0.1:
+        sc["prelude_refused"] = True
     if rng.random() < 0.12 and q != "":  # (urljoin drops an empty query from a Location: another URL, not this check's business)
         # the URL is reached by following a redirect from another host through the same manager: everything the wire says about the
         # second request must still be what *its* URL says
@@ -213,6 +215,17 @@ def run(sc: dict) -> Result:
         kw = dict(cert_reqs="CERT_NONE", timeout=3.0, retries=(2 if (sc.get("dns_fail_once") or sc.get("via_redirect_from")) else False))
         pm = urllib3.ProxyManager("http://proxy.test" if sc.get("proxy_port") == "default" else "http://proxy.test:3128", **kw) if via == "proxy" else urllib3.PoolManager(**kw)
         outs = []
+        if sc.get("prelude_refused"):
+            # a request to the same URL that is refused while it is being assembled (a header value with a line break): whatever it
+            # left in the connection object must not show up in front of the request that follows
+            try:
+                pm.request("GET", sc["url"], headers={"X-Refused": "a\r\nInjected: 1"})
+                res.probes["prelude_not_refused"] += 1
+            except (W.SimHang, W.StepLimit) as e:
+                res.bad("hang", str(e))
+            except Exception as e:
+                H.strip_tb(e)
+                res.probes["prelude_refused"] += 1
         for url in urls:
             try:
                 r = pm.request("GET", sc["via_redirect_from"] if sc.get("via_redirect_from") else url)
@@ -442,6 +455,10 @@ def check_sni(name, u, res):
 
 
 def shrinks(sc):
+    if sc.get("prelude_refused"):
+        c = copy.deepcopy(sc)
+        del c["prelude_refused"]
+        yield c
     if sc.get("variant"):
         c = copy.deepcopy(sc)
         del c["variant"]
